@@ -261,3 +261,38 @@ func VH_C14_ZeroTimeout() {
 	vAssert(vBytesEq(out[0], msgs[0]), "first message altered, merged or split by polling with an expired timeout")
 	vAssert(vBytesEq(out[1], msgs[1]), "second message altered, merged or split by polling with an expired timeout")
 }
+
+// VH_C14_SendDeadlineNone: the send deadline expires before the send loop has
+// taken even the first chunk (window full, or the loop busy in a stalled
+// transport write): that Send fails and has put nothing on the wire. The next
+// Send then produces exactly one Recv result - its own message - and nothing
+// before it (no terminator or left-over of the message that was never begun).
+func VH_C14_SendDeadlineNone() {
+	l := vIntRange("len", 1, vParam("maxlen", 3))
+	ch := make(chan *PacketData) // unbuffered and nobody reads: no chunk is accepted
+	a := &GoBackNConn{cfg: &config{maxChunkSize: 1}, sendDataChan: ch, quit: make(chan struct{}), timeoutManager: NewTimeOutManager(nil)}
+	b := &GoBackNConn{cfg: &config{}, recvDataChan: ch, quit: make(chan struct{}), timeoutManager: NewTimeOutManager(nil)}
+	a.SetSendTimeout(time.Millisecond)
+	err := a.Send(vBytes("lost", l))
+	vAssert(err == errSendTimeout, "Send did not time out although nobody takes packets")
+	if err == nil {
+		return
+	}
+	done := make(chan []byte, 4)
+	go func() {
+		for {
+			m, err := b.Recv()
+			if err != nil {
+				return
+			}
+			done <- m
+		}
+	}()
+	a.SetSendTimeout(time.Hour)
+	data := vBytes("d", 2)
+	vAssert(a.Send(data) == nil, "Send after a timed-out Send failed")
+	vReach("send-deadline-none")
+	got := <-done
+	vAssert(vBytesEq(got, data), "after a Send that timed out before its first chunk, the next message is preceded by a Recv result no Send produced")
+	close(b.quit)
+}
